@@ -417,6 +417,19 @@ func tailAnchor(pP, pQ gammaPath) string {
 	if (ks["finite_gamma_q"] || ks["finite_half_gamma_q"]) && !pP.pure["lt(x, MaxLogFloat64)"] {
 		return "a finite-sum method, which scales its terms by exp(-x), is selected on a path without the guard x < MaxLogFloat64: beyond it the factor underflows and the upper tail is returned as 0"
 	}
+	// Temme's uniform expansion is accurate only near the transition x ~ a: its selection has to bound the distance
+	// |x - a| relative to a (a test of the modulus), not the signed difference, which admits the whole lower tail
+	if ks["igamma_temme_large"] {
+		twoSided := false
+		for g, v := range pP.pure {
+			if v && strings.Contains(g, "fabs(") && strings.Contains(g, "a") && strings.Contains(g, "x") {
+				twoSided = true
+			}
+		}
+		if !twoSided {
+			return "Temme's expansion is selected on a path without a bound on |x - a| (no guard on a modulus of x and a holds): a one-sided test admits arguments far in the lower tail, where the expansion loses its relative accuracy"
+		}
+	}
 	want := ""
 	switch {
 	case ks["lgs"]:
